@@ -219,6 +219,7 @@ def concretize(case, rule, variant=0):
     return dict(old=old, new=new, entries=entries, unreliable=unreliable, term=term, notail=notail)
 
 
+_REPLAY_CALLS = [0]
 ALT_NAME = "src dir/caf\u00e9.js"
 NONL = "\\ No newline at end of file"
 
@@ -408,7 +409,8 @@ def replay(chk, cases, what, U_of=lambda ci: (0, 1, 3)[ci % 3], cli_sample=0):
                 len(skipped), len(pick), skipped[0], U, git_diff(old_text_of(conc), new_text_of(conc), U), diff))
         chk.notes.setdefault("git_alignment_differs_skipped", []).append(len(skipped))
         pick = [ci for ci in pick if ci not in set(skipped)]
-        tdir = vlib.subdir("dt-cli-traces-" + what)
+        _REPLAY_CALLS[0] += 1          # one trace directory per call: the hook appends to its file, case ids repeat across calls
+        tdir = vlib.subdir("dt-cli-traces-%s-%d" % (what, _REPLAY_CALLS[0]))
         cres = vlib.run_cli(cli_cases, trace_dir=tdir)
         # results under the alternative name are judged like the others: spell the name back
         for cid, r in cres.items():
